@@ -542,6 +542,31 @@ class Body:
     def ret_expr(self):
         return self.local_expr(0)
 
+    def ret_defs(self):
+        """definitions of the return value, looking through whole-local copies: `let r = if c {A} else {B}; r` and
+        a function whose returns were funnelled through an inlined helper yield the same entries as
+        `if c { return A } return B` — one per original definition, at the block that made it"""
+        key = 'ret_defs'
+        if key in self._cache:
+            return self._cache[key]
+        out = []
+        seen_sites = set()
+
+        def expand(l, seen):
+            for d in self.defs().get(l, []):
+                if d[0] == 'assign' and d[3]['k'] == 'use' and d[3]['op'].get('k') in ('move', 'copy') and not d[3]['op']['place']['p']:
+                    src = d[3]['op']['place']['l']
+                    if src != 0 and src not in seen and self.defs().get(src) and not (1 <= src <= self.arg_count):
+                        expand(src, seen | {src})
+                        continue
+                site = (d[0], d[1], d[2] if d[0] == 'assign' else id(d[2]))
+                if site not in seen_sites:
+                    seen_sites.add(site)
+                    out.append(d)
+        expand(0, {0})
+        self._cache[key] = out
+        return out
+
     # --- switch / edge facts --------------------------------------------------------------------
     def switch_info(self, bb):
         """for a SwitchInt block: (kind, subject_expr, {target_bb: label}) where kind is
@@ -603,12 +628,41 @@ class Body:
             for tgt, labels in lab.items():
                 if kind == 'bool':
                     if len(labels) == 1:
+                        # opt.is_some() / is_none() / res.is_ok() / is_err() are discriminant tests
+                        ps = peel(subj, calls=False)
+                        if ps[0] == 'call' and ps[2] and re.search(r'(option::Option|result::Result)::<.*>::(is_some|is_none|is_ok|is_err)$', ps[1]):
+                            m0 = method_name(ps[1])
+                            pos, neg = {'is_some': ('Some', 'None'), 'is_none': ('None', 'Some'), 'is_ok': ('Ok', 'Err'), 'is_err': ('Err', 'Ok')}[m0]
+                            es, conv = norm_enum_subject(peel(ps[2][0], calls=False))
+                            v = pos if labels[0] else neg
+                            out[(bb, tgt)].append(('is', es, (conv.get(v, v),)))
+                            continue
                         out[(bb, tgt)].append(('cond', subj, labels[0]))
                 elif kind == 'enum':
                     if labels:
+                        ps = peel(subj, calls=False)
+                        # a.checked_sub(b) is None exactly when a < b (unsigned)
+                        if ps[0] == 'call' and re.search(r'num::<impl u\d+>::checked_sub$|num::<impl usize>::checked_sub$', ps[1]) and len(ps[2]) == 2 and tuple(labels) in (('None',), ('Some',)):
+                            if tuple(labels) == ('None',):
+                                out[(bb, tgt)].append(('cond', ('bin', 'Lt', ps[2][0], ps[2][1]), True))
+                            else:
+                                out[(bb, tgt)].append(('cond', ('bin', 'Le', ps[2][1], ps[2][0]), True))
+                            continue
                         out[(bb, tgt)].append(('is', subj, tuple(labels)))
+                    elif len(lab) > 1:
+                        # `otherwise` of a switch that names every variant: no value takes this edge
+                        out[(bb, tgt)].append(('is', subj, ()))
                 else:
                     vals = tuple(v for v in labels if v != 'otherwise')
+                    ty = self.blocks[bb]['term'].get('discr_ty', '')
+                    if ty.startswith('u') and len(lab) == 2 and set(v for ls in lab.values() for v in ls) == {0, 'otherwise'}:
+                        # `match x { 0 => .., _ => .. }` on an unsigned x is the test x == 0
+                        zero = ('int', 0, ty)
+                        if vals == (0,):
+                            out[(bb, tgt)].append(('cond', ('bin', 'Le', subj, zero), True))
+                        else:
+                            out[(bb, tgt)].append(('cond', ('bin', 'Lt', zero, subj), True))
+                        continue
                     if 'otherwise' in labels:
                         allv = tuple(v for ls in lab.values() for v in ls if v != 'otherwise')
                         out[(bb, tgt)].append(('ne', subj, tuple(x for x in allv if x not in vals)))
@@ -990,6 +1044,8 @@ def norm_enum_subject(e):
 
 def mk_try(x):
     """success payload of `?` applied to x; sees through Ok(..) constructions and phis of them"""
+    if x[0] == 'call' and len(x[2]) == 2 and re.search(r'num::<impl (u\d+|usize)>::checked_sub$', x[1]):
+        return ('bin', 'Sub', x[2][0], x[2][1])   # the Some payload of a.checked_sub(b) is a - b
     ad = _adapter(x)
     if ad is not None:
         return mk_try(ad[0])
@@ -1708,6 +1764,9 @@ def canon(e, keep_casts=True, _d=0, labels=None):
             return canon(e[2][0], keep_casts, d)
         if m == 'index' and len(e[2]) == 2:
             return '%s[%s]' % (canon(e[2][0], keep_casts, d), canon(e[2][1], keep_casts, d))
+        # the payload of unwrap()/expect() is the payload `?` or a match would bind (the panic itself is a site of C14)
+        if m in ('unwrap', 'expect') and e[2] and re.search(r'(option::Option|result::Result)::<.*>::(unwrap|expect)$', name):
+            return canon(mk_try(e[2][0]), keep_casts, d)
         # Entry::or_default() on an integer counter is or_insert(0) (rules that rely on this check the value type)
         if m == 'or_default' and len(e[2]) == 1 and 'Entry' in name:
             return 'or_insert(%s, 0)' % canon(e[2][0], keep_casts, d)
@@ -2250,6 +2309,8 @@ def _prune_unreachable(raw):
 
 def _contradicts(facts, new):
     for n in new:
+        if n[0] == 'is' and n[2] == ():
+            return True
         if n[0] == 'is':
             for f in facts:
                 if f[0] == 'is' and f[1] == n[1] and not set(f[2]) & set(n[2]):
@@ -2283,10 +2344,14 @@ def _targets_of(t):
 # provenance whether the code is written with a loop/match or with the combinator.
 
 _ITER_CONSUMERS = {'std::iter::Iterator::for_each': 'for_each', 'std::iter::Iterator::try_for_each': 'try_for_each',
-                   'std::iter::Iterator::all': 'all', 'std::iter::Iterator::any': 'any'}
+                   'std::iter::Iterator::all': 'all', 'std::iter::Iterator::any': 'any', 'std::iter::Iterator::fold': 'fold'}
 _OPT_COMBINATORS = {'std::option::Option::<T>::is_some_and': 'is_some_and', 'std::option::Option::<T>::map_or': 'map_or',
                     'std::option::Option::<T>::map': 'option_map', 'std::result::Result::<T, E>::map': 'result_map',
-                    'std::option::Option::<T>::filter': 'option_filter'}
+                    'std::option::Option::<T>::filter': 'option_filter', 'std::option::Option::<T>::is_none_or': 'is_none_or',
+                    'std::result::Result::<T, E>::unwrap_or_else': 'result_unwrap_or_else', 'std::option::Option::<T>::unwrap_or_else': 'option_unwrap_or_else'}
+#   opt.is_none_or(p) == match opt { Some(x) => p(x), None => true }
+#   res.unwrap_or_else(f) == match res { Ok(x) => x, Err(e) => f(e) };  opt.unwrap_or_else(f) == match opt { Some(x) => x, None => f() }
+#   it.fold(init, f) == { let mut acc = init; for x in it { acc = f(acc, x) } acc }
 #   opt.filter(p)  == match opt { Some(x) if p(&x) => Some(x), _ => None }
 #   opt.transpose() (Option<Result<T, E>>) == match opt { Some(Ok(x)) => Ok(Some(x)), Some(Err(e)) => Err(e), None => Ok(None) }
 _TRANSPOSE = 'std::option::Option::<std::result::Result<T, E>>::transpose'
@@ -2570,7 +2635,36 @@ def _expand_one(raw, raw_by_path, bi, kind, used):
         blk['term'] = {'k': 'switch', 'discr': B.mv(d, 'isize'), 'arms': arms, 'otherwise': unr, 'discr_ty': 'isize', 'span': span}
         used.add(f_path)
         return True
-    if kind in ('is_some_and', 'map_or'):
+    if kind in ('result_unwrap_or_else', 'option_unwrap_or_else'):
+        if not _plain_local(args[0]):
+            return False
+        o = args[0]['place']['l']
+        oty = args[0]['place'].get('ty', '')
+        isres = kind == 'result_unwrap_or_else'
+        adt = 'std::result::Result' if isres else 'std::option::Option'
+        variants = [[0, 'Ok'], [1, 'Err']] if isres else [[0, 'None'], [1, 'Some']]
+        good = 'Ok' if isres else 'Some'
+        d = B.local('isize')
+        pj = lambda var, ty: [{'k': 'downcast', 'variant': var}, {'k': 'field', 'name': '0', 'idx': 0, 'ty': ty, 'of': adt}]
+        keep = B.block([B.assign(dest, {'k': 'use', 'op': B.mv(o, dest.get('ty', ''), pj(good, dest.get('ty', '')))}, span)], {'k': 'goto', 'target': target, 'span': span})
+        if isres:
+            ety = raw_by_path[f_path]['locals'][2]['ty'] if raw_by_path[f_path]['arg_count'] >= 2 else ''
+            ev = B.local(ety)
+            stub = B.block([B.assign(B.place(ev, ety), {'k': 'use', 'op': B.mv(o, ety, pj('Err', ety))}, span)], None)
+            e = _emit_closure_call(B, raw_by_path, f_local, f_path, [B.mv(ev, ety)], dest, target, span)
+        else:
+            stub = B.block([], None)
+            e = _emit_closure_call(B, raw_by_path, f_local, f_path, [], dest, target, span)
+        if e is None:
+            return False
+        raw['blocks'][stub]['term'] = {'k': 'goto', 'target': e, 'span': span}
+        unr = B.block([], {'k': 'unreachable', 'span': span})
+        blk['stmts'].append(B.assign(B.place(d, 'isize'), {'k': 'discr', 'place': B.place(o, oty), 'variants': variants}, span))
+        arms = [[0, keep], [1, stub]] if isres else [[0, stub], [1, keep]]
+        blk['term'] = {'k': 'switch', 'discr': B.mv(d, 'isize'), 'arms': arms, 'otherwise': unr, 'discr_ty': 'isize', 'span': span}
+        used.add(f_path)
+        return True
+    if kind in ('is_some_and', 'map_or', 'is_none_or'):
         if not _plain_local(args[0]):
             return False
         o = args[0]['place']['l']
@@ -2583,7 +2677,7 @@ def _expand_one(raw, raw_by_path, bi, kind, used):
         if e is None:
             return False
         raw['blocks'][some_entry_stub]['term'] = {'k': 'goto', 'target': e, 'span': span}
-        none_op = B.const_bool(False) if kind == 'is_some_and' else args[1]
+        none_op = B.const_bool(False) if kind == 'is_some_and' else (B.const_bool(True) if kind == 'is_none_or' else args[1])
         nb = B.block([B.assign(dest, {'k': 'use', 'op': none_op}, span)], {'k': 'goto', 'target': target, 'span': span})
         unr = B.block([], {'k': 'unreachable', 'span': span})
         blk['stmts'].append(B.assign(B.place(d, 'isize'), {'k': 'discr', 'place': B.place(o, oty), 'variants': [[0, 'None'], [1, 'Some']]}, span))
@@ -2635,7 +2729,14 @@ def _expand_one(raw, raw_by_path, bi, kind, used):
     unr = B.block([], {'k': 'unreachable', 'span': span})
     body0 = B.block([B.assign(B.place(x, item_ty), {'k': 'use', 'op': B.mv(n, item_ty, some0(item_ty))}, span)], None)
     # exit block
-    if kind == 'for_each':
+    if kind == 'fold':
+        if len(args) != 3:
+            return False
+        acc_ty = dest.get('ty', '')
+        acc = B.local(acc_ty)
+        blk['stmts'].append(B.assign(B.place(acc, acc_ty), {'k': 'use', 'op': args[1]}, span))
+        exit_rv = {'k': 'use', 'op': B.mv(acc, acc_ty)}
+    elif kind == 'for_each':
         exit_rv = {'k': 'aggr', 'akind': 'tuple', 'ops': [], 'fields': []}
     elif kind == 'try_for_each':
         u = B.local('()')
@@ -2680,7 +2781,12 @@ def _expand_one(raw, raw_by_path, bi, kind, used):
             cur_blk = cont
         used.add(cl_path)
     # consumer
-    if kind == 'for_each':
+    if kind == 'fold':
+        e = _emit_closure_call(B, raw_by_path, f_local, f_path, [B.mv(acc, acc_ty), B.mv(cur_item, cur_ty)], B.place(acc, acc_ty), head, span)
+        if e is None:
+            return False
+        raw['blocks'][cur_blk]['term'] = {'k': 'goto', 'target': e, 'span': span}
+    elif kind == 'for_each':
         ut = B.local('()')
         e = _emit_closure_call(B, raw_by_path, f_local, f_path, [B.mv(cur_item, cur_ty)], B.place(ut, '()'), head, span)
         if e is None:
